@@ -31,6 +31,7 @@ struct World {
     void Split(int k)
     {
         NetSim& S = *sim;
+        if (S.coins.empty() || S.coins.back().out.nValue < COIN) S.Fund(100);     // no large coin left: fund more from the next mature coinbases
         auto sp = S.OnTip();
         std::vector<CMutableTransaction> made;
         for (int i = 0; i < k && !S.coins.empty() && S.coins.back().out.nValue > COIN; ++i) {
